@@ -80,6 +80,7 @@ Definition exc_code (o : outcome) : N :=
   | ONoop | OSet _ _ => 0 | OErrCount => 1 | OErrScript => 2 | OErrAmount => 3 | OErrMinLovelace => 4
   end%N.
 
+Definition idof (cb : cand * bytes) : bytes * N := (c_txid (fst cb), c_ix (fst cb)).
 Definition ids (l : list cand) : list (bytes * N) := map (fun c => (c_txid c, c_ix c)) l.
 Definition id_list_eqb (a b : list (bytes * N)) : bool :=
   Nat.eqb (length a) (length b) &&
